@@ -376,6 +376,11 @@ def _window(ctx, u, cfg, name: Optional[str], grown: ast.AST, n: Node) -> Tuple[
             bounded = isinstance(it, ast.Call) and any(isinstance(a, ast.Call) and norm(a.func) == "range" for a in it.args)
             return (bounded, "filled through zip(range(n), ...): at most n entries" if bounded else
                     "the initial fill is not bounded by range(n)")
+        # the same fill written as an explicit loop: ``async for index, item in zip(range(n), ...): heap.append(...)``
+        fills = [a for (k, a) in n.regions if k == "loop" and isinstance(a, (ast.AsyncFor, ast.For)) and isinstance(a.iter, ast.Call)
+                 and any(isinstance(x, ast.Call) and norm(x.func) == "range" for x in a.iter.args)]
+        if fills and n.kind == "call" and norm(n.ast.func).split(".")[-1] == "append":
+            return True, "filled in a loop over zip(range(n), ...): at most n entries"
         return False, "the heap grows outside its initial fill"
     if short == "heapq.merge":
         fill_name = ctx.unit("heapq._KeyIter.from_iters").node.name  # (found structurally when renamed / moved)
